@@ -94,13 +94,26 @@ pub struct Scenario {
     pub keys: Vec<String>,
     pub txs: Vec<ScriptSpec>,
     pub plan: super::plan::Plan,
+    /// The chain's base asset id is not the all-zero id (as on the real network).
+    #[serde(default)]
+    pub base_nonzero: bool,
+}
+
+thread_local! {
+    /// Base asset id of the world being simulated (set by `World::build`; a run is single-threaded).
+    static BASE_ASSET: std::cell::Cell<[u8; 32]> = const { std::cell::Cell::new([0u8; 32]) };
+}
+
+/// The base asset of the current world.
+pub fn base_asset() -> AssetId {
+    AssetId::new(BASE_ASSET.with(|b| b.get()))
 }
 
 // ---- derived world -------------------------------------------------------------------------
 
 pub fn asset(i: u8) -> AssetId {
     if i == 0 {
-        AssetId::BASE
+        base_asset()
     } else {
         AssetId::new([i; 32])
     }
@@ -237,6 +250,9 @@ impl World {
     pub fn build(sc: &Scenario) -> World {
         let mut params = ConsensusParameters::standard();
         params.set_gas_costs(gas_costs(&sc.gas));
+        let base = if sc.base_nonzero { [0xB5u8; 32] } else { [0u8; 32] };
+        BASE_ASSET.with(|b| b.set(base));
+        params.set_base_asset_id(AssetId::new(base));
         let keys: Vec<[u8; 32]> = sc.keys.iter().map(|k| unhex32(k)).collect();
         let mut st = MemoryStorage::new(sc.height.into(), ContractId::new([0xCB; 32]));
         let mut contract_ids = Vec::new();
